@@ -305,6 +305,45 @@ def native_checks():
                 if got != exp:
                     fail("applicability", "property %r under format %s: accepted=%s, documented=%s" % (spelled, fmt, got, exp),
                          name=spelled, fmt=fmt)
+    # every attribute the object happens to carry: a name is a property only if documented, else InterfaceError
+    for fmt in ("delimited", "fixed", "excel", "ods"):
+        for attr in sorted(vars(data.DataFormat(fmt))):
+            name = attr.lstrip("_").lower()
+            for spelled in {name, name.replace("_", " ")}:
+                n += 1
+                df = data.DataFormat(fmt)
+                exp = name in DOCUMENTED[fmt]
+                try:
+                    df.set_property(spelled, SAMPLE_VALUE.get(name, "1"))
+                    got = True
+                except errors.InterfaceError:
+                    got = False
+                except Exception as e:  # noqa
+                    fail("applicability", "set_property(%r, ..) under %s raised %s: %s" % (spelled, fmt, type(e).__name__, e), name=spelled, fmt=fmt)
+                    continue
+                if got != exp:
+                    fail("applicability", "attribute name %r as property under %s: accepted=%s, documented=%s" % (spelled, fmt, got, exp), name=spelled, fmt=fmt)
+    # data format rows may follow field rows: they mean the same and contradictions are still refused
+    late = [("d,format,delimited\nd,item delimiter,;\nf,x\nd,quote character,;\n", False),
+            ("d,format,delimited\nf,x\nd,thousands separator,.\n", False),
+            ("d,format,delimited\nf,x\nd,item delimiter,10\nd,line delimiter,lf\n", False),
+            ("d,format,fixed\nf,x,,,3\nd,decimal separator,\",\"\nd,thousands separator,\",\"\n", False),
+            ("d,format,delimited\nf,x\nd,header,2\nd,item delimiter,;\nf,y\n", True),
+            ("d,format,excel\nf,x\nd,sheet,3\n", True)]
+    for text, ok in late:
+        n += 1
+        try:
+            cid = interface.create_cid_from_string(text)
+            got = True
+        except errors.InterfaceError:
+            got = False
+        except Exception as e:  # noqa
+            fail("late-data-format-row", "CID %r raised %s: %s" % (text, type(e).__name__, e), text=text)
+            continue
+        if got != ok:
+            fail("late-data-format-row", "CID %r: accepted=%s expected %s" % (text, got, ok), text=text)
+        elif ok and text.startswith("d,format,delimited") and (cid.data_format.header != 2 or cid.data_format.item_delimiter != ";"):
+            fail("late-data-format-row", "CID %r: late properties not applied" % text, text=text)
     # the same through a CID row, names in any case
     for fmt in ("delimited", "fixed", "excel", "ods"):
         for name in sorted(SAMPLE_VALUE):
